@@ -178,6 +178,13 @@ def rule_r7(chk, db):
                     "(%s): `?acl&acl` falls out of the string to sign while the router still sees `acl` - a request signed for GET /b/k is accepted as "
                     "GetObjectAcl" % (short(d), ", ".join(bad[:2])))
     chk.floor("R7", n, 1, "query selections by sub-resource name in the V2 string-to-sign builder")
+    # observation: Content-MD5 / Content-Type / Date are selected with the headers' single-valued selector as well, so a request that repeats
+    # one of these headers is signed as if it had none.  Operations that bind such a header refuse the repetition when they read it
+    # (C02: single-valued helpers), the others do not look at it: no accepted request changes its meaning, hence an advisory
+    hs = sorted({(paths.str_args(b, t) or ["?"])[0] for bi, t in b.calls() if "ordered_headers::OrderedHeaders" in callee_def(t) and short(callee_def(t)) == "get_unique"})
+    if hs:
+        chk.advisory("the V2 string to sign reads %s with OrderedHeaders::get_unique: a repeated header is signed as absent (the typed input refuses "
+                     "the repetition where the header matters)" % ", ".join(hs))
 
 
 def run(chk, db, tier):
